@@ -147,6 +147,7 @@ def finish(prop, results, N, t, sd, t0, extra_cov=None):
 
 def main(argv):
     prop = argv[1]
+    if prop == 'replay': return replay(argv[2])
     if prop in ('C01', 'C02', 'C03', 'C06', 'C05'):
         return run_parser_property(prop)
     if prop == 'C04':
@@ -159,6 +160,9 @@ def main(argv):
     if prop == 'C12':
         from . import c12
         return c12.main(tier(), seed())
+    if prop == 'C13':
+        from . import c13
+        return c13.main(tier(), seed())
     if prop == 'C15':
         def gsel(t, sd):
             gs = select('C15', t, sd)
@@ -179,6 +183,49 @@ def main(argv):
                                                          oracle_selfchecks=sum(r.get('oracle_selfchecks', 0) for r in rs),
                                                          trees_enumerated_for_selfcheck=sum(r.get('trees_enumerated', 0) for r in rs)))
     print('unknown property', prop); return 2
+
+
+def replay(path):
+    """rebuild the native harness from the current /repo and re-evaluate the recorded counterexample concretely (dev + release)"""
+    body = json.load(open(path))
+    prop = body['property']
+    if prop == 'C12':
+        from . import c12
+        exe = c12.build_fe_native()
+        if body.get('text'): o = c12.fe_native_run(exe, ['TEXT ' + body['text'].encode().hex()])[0]
+        else: o = c12.fe_native_run(exe, [' '.join(body['tokens'])])[0]
+        bad = bool(o.get('panic') or o.get('bad_spans') or o.get('sema_panic'))
+        print(json.dumps(o)[:1500]); print('REPRODUCED' if bad else 'property holds on this input now')
+        return 1 if bad else 0
+    g = gram.parse_simple(body['grammar'], name=body.get('grammar_name', 'replay'))
+    h, err = harness.make_harness(body['grammar'])
+    if h is None:
+        print('grammar is rejected / does not compile now:', err[0], (err[1] or '')[:300]); return 0
+    toks = [h.tokens[k] for k in body['witness']]
+    rc = 0
+    for rel in (False, True):
+        o = harness.run_native(h, [(body['entry'], toks, body.get('callback_script') or '')], release=rel, timeout=20)[0]
+        kind = body.get('kind')
+        if prop == 'C16':
+            v = props.Violation('C16', kind, g, type('R', (), dict(entry=body['entry'], n=len(toks), witness=body['witness'], script=body.get('callback_script') or ''))(), '')
+            holds = not props.confirm_c16(h, g, v)
+        elif prop == 'C07':
+            from . import c07
+            v = props.Violation('C07', kind, g, type('R', (), dict(entry=body['entry'], n=len(toks), witness=body['witness'], script=''))(), '')
+            holds = not c07.confirm_c07(h, g, v, c07.branch_table(g))
+        elif prop == 'C08':
+            if o.get('panic') or o.get('timeout') or o.get('crash'): holds = None
+            elif kind == 'action-while-choice-active': holds = not any(e[0] == 3 and e[4] for e in o['log'])
+            elif kind == 'choice-flag-leaks': holds = not ((o['log'] and o['log'][-1][4]) or any(d[3] for d in o['diags']))
+            elif kind == 'diagnostic-after-backtrack':
+                ps = [d[2] for d in o['diags'] if d[4] == 0]; holds = not any(b <= a for a, b in zip(ps, ps[1:]))
+            else: holds = None
+        else:
+            holds = props.native_holds(h, g, prop, body['entry'], body['witness'], o)
+        print(f"{'release' if rel else 'dev'}: input {' '.join(toks)!r} -> property {prop} {'HOLDS' if holds else ('VIOLATED' if holds is False else 'not decidable from outputs alone (internal-state finding): see recorded detail')}")
+        if holds is False: rc = 1
+    print('recorded detail:', body.get('detail', '')[:400])
+    return rc
 
 if __name__ == '__main__':
     sys.exit(main(sys.argv))
